@@ -7,8 +7,9 @@ From RtoscV Require ArgVal.AvModel.
 From RtoscV Require Import Save.TopoModel Save.SaveModel Save.SaveProofs Save.RoundProofs Save.RoundFull Save.PermApp Save.SortStage Save.EqStage Save.SaveRegress.
 From RtoscV Require Import Ports.WalkModel Ports.DispatchModel Ports.TreeProofs Ports.DispatchWalk Ports.NamesModel.
 From RtoscV Require Import Save.TreeApp Save.DispatchStage Save.TreeStage Save.WalkStage Save.TreePipeline.
-From RtoscV Require Pretty.Tok Pretty.PrintModel Pretty.ScanModel Pretty.RunProofs Pretty.ListProofs.
-From RtoscV Require Import Save.PrintStage Save.PrintLines Save.PipelineReal.
+From RtoscV Require Pretty.Tok Pretty.PrintModel Pretty.ScanModel Pretty.PrettyProofs Pretty.RunProofs Pretty.ListProofs Pretty.ArrayProofs.
+From RtoscV Require Import Save.PrintStage Save.PrintTotal Save.PrintLines Save.PipelineReal.
+From RtoscV Require Import Save.CondModel Save.CondProofs Save.ReachProofs.
 Import ListNotations.
 Local Open Scope Z_scope.
 
@@ -51,6 +52,30 @@ Theorem C12_reject_unmatched : forall apropos fuel a its st ls tot order l r st'
   In l (pick ls dummy_line order) -> find_port a (l_path l) = None ->
   dispatch_printed apropos fuel a its st = Some (r, st') -> r < 0.
 Proof. exact reject_unmatched. Qed.
+
+(* "a line no port accepts", in general: whatever the reason no port accepts the line when its
+   turn comes in the load order - the result is negative and nothing behind it is dispatched;
+   the reasons: unknown address (above), an argument the port does not take, a line / port
+   array mismatch, a port below a pointer sub-tree that is absent at that moment *)
+Theorem C12_reject_unaccepted : forall apropos fuel a its st ls tot order pre l post s r st',
+  rd_nonneg its -> scan_items its = (ls, tot, true) ->
+  load_order apropos fuel (map (fun l => (l_path l, l)) ls) = Some order ->
+  pick ls dummy_line order = pre ++ l :: post ->
+  apply_all a pre st = (s, true) -> apply_line a l s = None ->
+  dispatch_printed apropos fuel a its st = Some (r, st') -> r < 0 /\ st' = partial_line a l s.
+Proof. exact reject_unaccepted. Qed.
+
+(* ... of a line that is not accepted a scalar line changes nothing; an array line is sent element
+   by element, the elements in front of the rejected one have been applied (apply_elems_partial) *)
+Theorem C12_partial_line_scalar : forall a l s, l_array l = false -> partial_line a l s = s.
+Proof. exact partial_line_scalar. Qed.
+
+Theorem C12_unaccepted_causes : forall a l i v s,
+  find_port a (l_path l) = Some i ->
+  (l_array l = false -> l_vals l = [v] -> store (port_at a i) v = None -> apply_line a l s = None) /\
+  (l_array l <> p_array (port_at a i) -> apply_line a l s = None) /\
+  (l_array l = false -> l_vals l = [v] -> exists_ a s i = false -> apply_line a l s = None).
+Proof. exact unaccepted_causes. Qed.
 
 Theorem C12_reject_propagates : forall apropos fuel a name f st n1 n2 r st',
   f_h1 f = Some n1 -> f_h2 f = Some (name, n2) -> 0 <= n1 -> 0 <= n2 ->
@@ -143,7 +168,7 @@ Theorem C12_roundtrip_full_nonvacuous :
   full_conditions fx_app fx_state /\ saved fx_app fx_state = [0%nat; 1%nat; 2%nat] /\
   respects (must_precede fx_app) [0%nat; 2%nat; 1%nat] /\
   l_vals (the_line fx_app fx_state 2) = [VI 1; VI 5] /\
-  apply_all fx_app (map (the_line fx_app fx_state) [0%nat; 2%nat; 1%nat]) (initial fx_app) = (fx_state, true) /\
+  apply_all fx_app (map (the_line fx_app fx_state) [0%nat; 2%nat; 1%nat]) (initial fx_app) = (fx_loaded, true) /\
   snd (apply_all fx_app (map (the_line fx_app fx_state) [1%nat; 0%nat; 2%nat]) (initial fx_app)) = false.
 Proof. exact roundtrip_full_nonvacuous. Qed.
 
@@ -216,8 +241,13 @@ Proof. exact rself_walker_offset_before_fix_refuted. Qed.
    models (rParam rParamI rParamF rToggle rOption rString, rArrayI/F/T/Option "name#N"),
    sub-tree ports of one component - embedded (rRecur), enumerated (rRecurs "name#N/"),
    pointer (rRecurp, the object exists while a toggle of the parent table is on) -,
-   optionally "enabled by" a toggle of the parent table.  [app_of_tree t] is the abstract
-   application: one port per leaf under every expansion of the sub-trees above it.
+   optionally "enabled by" a toggle of the parent table ("tg") or a toggle inside the
+   sub-tree itself ("name/tg", "name#N/tg": element name<i>/ is switched by name<i>/tg; the
+   switch governs the other ports below, not itself); non-parameter ports "name:", among them
+   rSelf's "self:" whose 'enabled by' names a toggle of the same table (it governs every other
+   port of the table and below).  [app_of_tree t] is the abstract application: one port per
+   leaf under every expansion of the sub-trees above it; a non-parameter port has an entry
+   without default (walked, never saved, no theorem sends it a message).
 
    The callback of a leaf (C14's model of the macro, SugarModel.step) stores exactly
    what SaveModel.store says - clamp(v) (rLIMIT = clampK: the core of C14_clamp; for
@@ -306,7 +336,7 @@ Theorem C12_pipeline_tree_nonvacuous :
   declared a apropos_fx /\
   (exists ps, pushes line apropos_fx 20 (msgs (save_lines a fx_state)) = Some ps /\ ranked ps) /\
   real_apply (fun _ l s => tree_apply_line no_hash_search one_id fx_tree l s) a
-             (map (the_line a fx_state) [0; 2; 1]%nat) (initial a) = (fx_state, true) /\
+             (map (the_line a fx_state) [0; 2; 1]%nat) (initial a) = (fx_loaded, true) /\
   tree_apply_line no_hash_search one_id fx_tree (the_line a fx_state 1) (initial a) = None.
 Proof. exact pipeline_tree_nonvacuous. Qed.
 
@@ -355,18 +385,31 @@ Proof. exact walk_addresses. Qed.
 (* with the runtime object of a state [st] - the oracle C09's model asks: a pointer
    sub-tree is NULL while its switch is off, an 'enabled by' toggle answers the state's
    value - the walker is called for exactly the live ports (C09_pruning_enumerated, put
-   together for the whole tree: walk_pruned_wf) *)
+   together for the whole tree: walk_pruned_wf).  The sub-tree ports carry the metadata
+   rEnabledBy writes; both forms of the property are covered: a toggle of the parent table,
+   and the inner switch "name/tg" / "name#N/tg" (the walk does not enter the disabled
+   sub-tree but is applied to the switch, C09's skipped_reports: the switch is the one live
+   port below).  Likewise the rSelf form: while the toggle the table's "self:" port names is
+   off, walk_ports does not look at the table but is applied to that toggle (C09's
+   self_toggle).  switches_ok (decidable, Save/TreeApp.v): the property is a C string; the
+   inner form names a toggle leaf that Ports::operator[] finds in the sub-table (the same one
+   as that table's rSelf, if it has one), the other form is one name (no '/'); the rSelf
+   port is the one Ports::operator[]("self:") finds and names a toggle leaf of its table.
+   Distinct port addresses: the switch is told from the ports it governs by its address. *)
 Theorem C12_walk_live_reports : forall t st,
-  names_ok (sports_of t) = true -> NoDup (map dir_addr (dirs_root t)) ->
+  names_ok (sports_of t) = true -> switches_ok t = true ->
+  NoDup (map dir_addr (dirs_root t)) -> NoDup (map p_path (app_of_tree t)) ->
   walk (Some (oracle_of (app_of_tree t) (dirs_root t) st)) (map render_port (sports_of t)) [] =
   WOk (flat_map (live_reports (app_of_tree t) st) (flat_root t)) [47].
 Proof. exact walk_live_reports. Qed.
 
 (* the former premise "C09": the ports the walk reaches are the live ports, in order.
-   Side conditions: distinct sub-tree addresses, distinct element addresses, no empty array. *)
+   Side conditions: switches_ok, distinct sub-tree addresses, distinct port and element
+   addresses, no empty array. *)
 Theorem C12_walk_stage : forall t st,
   let a := app_of_tree t in
-  names_ok (sports_of t) = true -> NoDup (map dir_addr (dirs_root t)) ->
+  names_ok (sports_of t) = true -> switches_ok t = true ->
+  NoDup (map dir_addr (dirs_root t)) -> NoDup (map p_path a) ->
   NoDup (app_addresses a) -> (forall i, (i < length a)%nat -> (0 < p_len (port_at a i))%nat) ->
   walk_tree t st = filter (live a st) (seq 0 (length a)).
 Proof. exact walk_stage. Qed.
@@ -377,11 +420,12 @@ Proof. exact walk_stage. Qed.
    [full_conditions] (well-formed application, state of the right shape, saved values
    stable), [comparable] (no NaN), [cstrings], [declared] (decidable), an acyclic
    dependency scan, and the decidable conditions on the tree: names_ok, tree_ok (C04's),
-   pt_wf, distinct sub-tree and element addresses. *)
+   pt_wf, switches_ok, distinct sub-tree and element addresses. *)
 Theorem C12_roundtrip_pipeline_tree_walk_partial :
   forall text print_lines scan_text hp tid (t : list pt) apropos fuel F st ps,
     let a := app_of_tree t in
     names_ok (sports_of t) = true -> tree_ok (to_tree hp tid (sports_of t)) -> Forall pt_wf t ->
+    switches_ok t = true ->
     NoDup (map dir_addr (dirs_root t)) -> NoDup (app_addresses a) ->
     print_scan_hypothesis text print_lines scan_text ->
     full_conditions a st -> comparable a st -> cstrings st ->
@@ -398,9 +442,51 @@ Proof. exact roundtrip_pipeline_tree_walk. Qed.
 
 Theorem C12_pipeline_tree_walk_nonvacuous :
   NoDup (map dir_addr (dirs_root fx_tree)) /\ NoDup (app_addresses (app_of_tree fx_tree)) /\
-  walk_tree fx_tree fx_state = [0; 1; 2]%nat /\
-  walk_tree fx_tree (initial (app_of_tree fx_tree)) = [0; 2]%nat.
+  walk_tree fx_tree fx_state = [0; 1; 2; 3]%nat /\
+  walk_tree fx_tree (initial (app_of_tree fx_tree)) = [0; 2; 3]%nat.
 Proof. exact pipeline_tree_walk_nonvacuous. Qed.
+
+(* the inner-switch form: { sub/ (enabled by "sub/on") -> { on, x }, a#2/ (enabled by "a#2/on")
+   -> { y, on } } - a0/ is switched by a0/on, a1/ by a1/on.  All side conditions of
+   C12_walk_stage hold; a switch governs the other ports of its sub-tree, not itself; from a
+   default-initialised instance the walk reaches the three switches only, with /sub/on and
+   /a1/on on also /sub/x and /a1/y (not /a0/y): the live ports. *)
+Theorem C12_walk_inner_switch_nonvacuous :
+  let a := app_of_tree sw_tree in
+  names_ok (sports_of sw_tree) = true /\ switches_ok sw_tree = true /\
+  NoDup (map dir_addr (dirs_root sw_tree)) /\ NoDup (map p_path a) /\ NoDup (app_addresses a) /\
+  (forall i, (i < length a)%nat -> (0 < p_len (port_at a i))%nat) /\
+  map (fun p => (p_path p, p_soft p)) a =
+    [ ([47; 115; 117; 98; 47; 111; 110], []);       ([47; 115; 117; 98; 47; 120], [0%nat]);
+      ([47; 97; 48; 47; 121], [3%nat]);             ([47; 97; 48; 47; 111; 110], []);
+      ([47; 97; 49; 47; 121], [5%nat]);             ([47; 97; 49; 47; 111; 110], []) ] /\
+  walk_tree sw_tree (initial a) = [0; 3; 5]%nat /\
+  filter (live a (initial a)) (seq 0 (length a)) = [0; 3; 5]%nat /\
+  walk_tree sw_tree sw_state = [0; 1; 3; 4; 5]%nat /\
+  filter (live a sw_state) (seq 0 (length a)) = [0; 1; 3; 4; 5]%nat.
+Proof. exact walk_inner_switch_nonvacuous. Qed.
+
+(* the rSelf form: { x, d/ -> { self: (enabled by "on"), on, y, e/ -> { z } },
+   b/ (enabled by "b/on") -> { self: (enabled by "on"), w, on } } (in b/ both forms name one
+   switch).  "self:" has an entry without default; the switch governs everything else in its
+   table and below.  From a default-initialised instance the walk reaches /x, /d/on, /b/on;
+   with /d/on on everything below d/ as well. *)
+Theorem C12_walk_rself_nonvacuous :
+  let a := app_of_tree self_tree in
+  names_ok (sports_of self_tree) = true /\ switches_ok self_tree = true /\
+  NoDup (map dir_addr (dirs_root self_tree)) /\ NoDup (map p_path a) /\ NoDup (app_addresses a) /\
+  (forall i, (i < length a)%nat -> (0 < p_len (port_at a i))%nat) /\
+  map (fun p => (p_path p, p_soft p, p_nodef p)) a =
+    [ ([47; 120], [], false);
+      ([47; 100; 47; 115; 101; 108; 102], [2%nat], true);    ([47; 100; 47; 111; 110], [], false);
+      ([47; 100; 47; 121], [2%nat], false);                  ([47; 100; 47; 101; 47; 122], [2%nat], false);
+      ([47; 98; 47; 115; 101; 108; 102], [7%nat; 7%nat], true);
+      ([47; 98; 47; 119], [7%nat; 7%nat], false);            ([47; 98; 47; 111; 110], [], false) ] /\
+  walk_tree self_tree (initial a) = [0; 2; 7]%nat /\
+  filter (live a (initial a)) (seq 0 (length a)) = [0; 2; 7]%nat /\
+  walk_tree self_tree self_state = [0; 1; 2; 3; 4; 7]%nat /\
+  filter (live a self_state) (seq 0 (length a)) = [0; 1; 2; 3; 4; 7]%nat.
+Proof. exact walk_rself_nonvacuous. Qed.
 
 (* ======================================================================== *)
 (* Stage 5: the print/scan stage (C10)                                         *)
@@ -447,8 +533,8 @@ Proof. exact body_scans. Qed.
      * [full_conditions] (well-formed application, shape of the state, saved values stable),
        [comparable] (no NaN), [cstrings] (no NUL in strings);
      * [declared] (decidable, C13_declared_computed) and an acyclic dependency scan;
-     * decidable conditions on the tree: names_ok, C04's tree_ok, pt_wf, distinct sub-tree
-       and element addresses;
+     * decidable conditions on the tree: names_ok, C04's tree_ok, pt_wf, switches_ok, distinct
+       sub-tree and element addresses;
      * per saved LINE: [line_reads] - proved for scalar lines with goodc values
        (C12_goodc_line_reads); for lines with floats ("the float-text premise"), plain option
        symbols and "[...]" array lines it is assumed. *)
@@ -456,6 +542,7 @@ Theorem C12_roundtrip_tree_real_partial :
   forall (dec2f dec2d : list Z -> Z) o hp tid (t : list pt) apropos fuel F st ps,
     let a := app_of_tree t in
     names_ok (sports_of t) = true -> tree_ok (to_tree hp tid (sports_of t)) -> Forall pt_wf t ->
+    switches_ok t = true ->
     NoDup (map dir_addr (dirs_root t)) -> NoDup (app_addresses a) ->
     full_conditions a st -> comparable a st -> cstrings st ->
     declared a apropos ->
@@ -482,3 +569,163 @@ Theorem C12_roundtrip_tree_real_nonvacuous : forall (dec2f dec2d : list Z -> Z),
     = Some [47; 101; 32; 116; 114; 117; 101; 10;  47; 115; 47; 120; 32; 57; 10] /\
   Forall (line_reads dec2f dec2d opts_default) (save_lines a fx_state2).
 Proof. exact roundtrip_tree_real_nonvacuous. Qed.
+
+(* ======================================================================== *)
+(* Stage 6: the lines of every parameter kind                                  *)
+(* ======================================================================== *)
+(* C12_message_reads_tl over C10's widened class (stage 6 of C10): bare symbols, blobs, and
+   with the lossless option every finite float / double; +0.0 and -0.0 of one type not both
+   in the list ([nozmix], the predicate of C10's finding class signed-zero-run) *)
+Theorem C12_message_reads_tl_any : forall (dec2f dec2d : list Z -> Z) o addr vs text w,
+  PrintModel.compress o = true -> RunProofs.good_addr addr -> Forall (ListProofs.goodv o) vs ->
+  ListProofs.nozmix vs -> Z.of_nat (length vs) < 2 ^ 31 ->
+  PrintModel.print_message o addr vs 0 = Some (text, w) ->
+  exists slots,
+    PrintModel.expand slots = Some vs /\ (exists sfx, text = addr ++ sfx) /\
+    forall tl, tail_ok tl ->
+    ScanModel.count_printed_arg_vals_of_msg dec2f dec2d (text ++ 10 :: tl)
+      = ScanModel.Ok (true, Z.of_nat (length slots)) /\
+    ScanModel.scan_message dec2f dec2d (text ++ 10 :: tl) (Z.of_nat (length slots))
+      = ScanModel.Ok (addr, slots, tl).
+Proof. exact message_reads_tl_nz. Qed.
+
+(* a message with ONE value - the line of a scalar port - for ANY option record and every
+   value C10 has a token theorem for: no condition on dots (fewer than five values are never
+   compressed, no range tail can follow), both zeroes *)
+Theorem C12_one_message_reads_tl : forall (dec2f dec2d : list Z -> Z) o addr v text w,
+  RunProofs.good_addr addr -> good1 o v ->
+  PrintModel.print_message o addr [v] 0 = Some (text, w) ->
+  (exists sfx, text = addr ++ sfx) /\
+  forall tl, tail_ok tl ->
+    ScanModel.count_printed_arg_vals_of_msg dec2f dec2d (text ++ 10 :: tl) = ScanModel.Ok (true, 1) /\
+    ScanModel.scan_message dec2f dec2d (text ++ 10 :: tl) 1 = ScanModel.Ok (addr, [v], tl).
+Proof. exact one_message_reads_tl. Qed.
+
+(* a message whose values are ONE array "[e1 e2 ...]" - the line of a "name#N" port - for any
+   option record: the scanner writes the array header and slots that expand to the elements *)
+Theorem C12_array_message_reads_tl : forall (dec2f dec2d : list Z -> Z) o addr ty elems text w,
+  RunProofs.good_addr addr -> Forall (ListProofs.goodv o) elems -> ListProofs.nozmix elems ->
+  ArrayProofs.homog elems -> elems <> [] -> Z.of_nat (length elems) + 1 < 2 ^ 31 ->
+  PrintModel.print_message o addr (Tok.VArr ty (Z.of_nat (length elems)) :: elems) 0 = Some (text, w) ->
+  exists ty' slots,
+    PrintModel.expand slots = Some elems /\ (exists sfx, text = addr ++ sfx) /\
+    forall tl, tail_ok tl ->
+    ScanModel.count_printed_arg_vals_of_msg dec2f dec2d (text ++ 10 :: tl)
+      = ScanModel.Ok (true, 1 + Z.of_nat (length slots)) /\
+    ScanModel.scan_message dec2f dec2d (text ++ 10 :: tl) (1 + Z.of_nat (length slots))
+      = ScanModel.Ok (addr, Tok.VArr ty' (Z.of_nat (length slots)) :: slots, tl).
+Proof. exact array_message_reads_tl_nz. Qed.
+
+(* the printer's model is total on one-value lines, compression on or off *)
+Theorem C12_scalar_line_prints : forall o l x, l_array l = false -> l_vals l = [x] ->
+  exists t w, PrintModel.print_message o (l_path l) (line_avs l) 0 = Some (t, w).
+Proof. exact scalar_line_prints. Qed.
+
+(* a saved line of the class [good_line] reads back, whatever message follows it:
+     scalar port:  one value - 32-bit int, char 0..255, finite float (both zeroes), T/F, string or
+                   quoted symbol without NUL, bare symbol                          [good_scalar1]
+     name#N port:  one non-empty array of elements of one type ([homog]; T and F are one type),
+                   each an int, char other than '.', finite float, T/F, string / quoted symbol
+                   without NUL and '.', bare symbol [good_elem]; +0.0 and -0.0 not both [nozmix]
+   Excluded: NaN, infinities; arrays mixing types; C10's two list-level findings inside arrays. *)
+Theorem C12_good_line_reads : forall (dec2f dec2d : list Z -> Z) o l,
+  PrintModel.lossless o = true -> good_line l -> line_reads dec2f dec2d o l.
+Proof. exact good_line_reads_total. Qed.
+
+(* printer totality with compression ON (open since stage 5): a message whose values are one
+   array of C10's goodc values is printed by the model for every option record, address and
+   length - the range conversion inside the array loop (rtosc_convert_to_range, the run loops,
+   rtosc_print_range) never takes a path the model does not cover *)
+Theorem C12_array_message_prints : forall o zf zd addr ty elems,
+  ListProofs.zchoice zf zd -> Forall (ListProofs.goodc o zf zd) elems ->
+  Z.of_nat (length elems) + 1 < 2 ^ 31 ->
+  exists text w, PrintModel.print_message o addr (Tok.VArr ty (Z.of_nat (length elems)) :: elems) 0 = Some (text, w).
+Proof. exact array_message_prints_any. Qed.
+
+Theorem C12_good_line_prints : forall o l,
+  PrintModel.lossless o = true -> good_line l ->
+  exists t w, PrintModel.print_message o (l_path l) (line_avs l) 0 = Some (t, w).
+Proof. exact good_line_prints. Qed.
+
+(* C12_roundtrip_tree_real_partial WITHOUT the per-line premise: every saved line is in the
+   class [good_line] (conditions on the saved VALUES only, see C12_good_line_reads) and the
+   option record is lossless (default_print_options, with which savefiles are written, is).
+   Still _partial: the other premises of C12_roundtrip_tree_real_partial (application well formed,
+   no NaN, metadata declares the dependencies, decidable conditions on the tree). *)
+Theorem C12_roundtrip_tree_real_lines_partial :
+  forall (dec2f dec2d : list Z -> Z) o hp tid (t : list pt) apropos fuel F st ps,
+    let a := app_of_tree t in
+    names_ok (sports_of t) = true -> tree_ok (to_tree hp tid (sports_of t)) -> Forall pt_wf t ->
+    switches_ok t = true ->
+    NoDup (map dir_addr (dirs_root t)) -> NoDup (app_addresses a) ->
+    full_conditions a st -> comparable a st -> cstrings st ->
+    declared a apropos ->
+    pushes line apropos fuel (msgs (save_lines a st)) = Some ps -> ranked ps ->
+    PrintModel.lossless o = true -> Forall good_line (save_lines a st) ->
+    exists fin,
+      real_load (option (list Z)) (scan_text_real dec2f dec2d) (fun _ l s => tree_apply_line hp tid t l s)
+                (fun _ ls => sort_by_load_order apropos fuel ls) a
+                (real_save (option (list Z)) (fun _ s => walk_tree t s) (av_eq_real F) (print_body o) a st)
+                (initial a)
+      = Some (Z.of_nat (length (save_lines a st)), fin) /\
+      forall q, (q < length a)%nat -> p_nodef (port_at a q) = false -> live a st q = true ->
+                restored_val (port_at a q) (val_at st q) (val_at fin q).
+Proof. exact roundtrip_tree_real_lines. Qed.
+
+(* the tree of C12_pipeline_tree_nonvacuous with /t = [1 5 1]: the body is
+   "/e true\n/s/x 9\n/t [1 5]\n" (array line, suffix equal to the default trimmed) *)
+Theorem C12_roundtrip_tree_real_lines_nonvacuous : forall (dec2f dec2d : list Z -> Z),
+  let a := app_of_tree fx_tree in
+  full_conditions a fx_state /\
+  print_body opts_default (save_lines a fx_state)
+    = Some [47; 101; 32; 116; 114; 117; 101; 10;  47; 115; 47; 120; 32; 57; 10;
+            47; 116; 32; 91; 49; 32; 53; 93; 10] /\
+  Forall good_line (save_lines a fx_state) /\
+  Forall (line_reads dec2f dec2d opts_default) (save_lines a fx_state).
+Proof. exact roundtrip_tree_real_lines_nonvacuous. Qed.
+
+(* lines of the other kinds: /f 0.10 (0x1.99999ap-4), /o sine, /s "a...b" (dots are no obstacle on
+   a one-value line), /a [0.50 (0x1p-1) 5x-0.00 (-0x0p+0)] *)
+Theorem C12_good_line_examples : forall (dec2f dec2d : list Z -> Z),
+  Forall good_line [ex_float_line; ex_symbol_line; ex_dotted_line; ex_farray_line] /\
+  Forall (line_reads dec2f dec2d opts_default) [ex_float_line; ex_symbol_line; ex_dotted_line; ex_farray_line] /\
+  print_body opts_default [ex_float_line; ex_symbol_line; ex_dotted_line; ex_farray_line] =
+  Some ([47; 102; 32; 48; 46; 49; 48; 32; 40; 48; 120; 49; 46; 57; 57; 57; 57; 57; 97; 112; 45; 52; 41; 10] ++
+        [47; 111; 32; 115; 105; 110; 101; 10] ++
+        [47; 115; 32; 34; 97; 46; 46; 46; 98; 34; 10] ++
+        [47; 97; 32; 91; 48; 46; 53; 48; 32; 40; 48; 120; 49; 112; 45; 49; 41; 32; 53; 120; 45; 48; 46; 48; 48; 32;
+         40; 45; 48; 120; 48; 112; 43; 48; 41; 93; 10]).
+Proof. exact good_line_examples. Qed.
+
+(* the class of lines is decidable: the tie evaluates good_line_b on every saved line *)
+Theorem C12_good_line_computed : forall l, good_line_b l = true -> good_line l.
+Proof. exact good_line_b_sound. Qed.
+
+(* the side conditions on the application and the state are decidable: the tie evaluates
+   wf_app_b / full_conditions_b on every generated case (Save/CondModel.v) *)
+Theorem C12_wf_app_computed : forall a, wf_app_b a = true -> wf_app a.
+Proof. exact wf_app_b_sound. Qed.
+Theorem C12_full_conditions_computed : forall a st, full_conditions_b a st = true -> full_conditions a st.
+Proof. exact full_conditions_b_sound. Qed.
+
+(* "For any state an application can reach through its parameter ports": the states reached from
+   a default-initialised instance by parameter messages (send: a message no port accepts leaves the
+   state as it is) satisfy what the round-trip theorems ask of the state.  Asked of the application:
+   wf_app and defaults that its own callbacks store (defaults_stable: inside the declared range);
+   of a message: msg_ok - the value it stores is stored again when sent as the file shows it.  That
+   holds for EVERY message to a port that is no option port (C12_msg_ok_non_option, from C14's
+   clamp idempotence); for option ports it excludes exactly the messages of the finding class
+   option-outside-range (a symbol whose number lies outside the declared range).  All three are
+   decidable and evaluated by the tie (defaults_stable_b, msg_ok_b). *)
+Theorem C12_reachable_full_conditions : forall a, wf_app a -> defaults_stable a ->
+  forall s, reachable a s -> full_conditions a s.
+Proof. exact reachable_full_conditions. Qed.
+Theorem C12_msg_ok_non_option : forall p v, p_kind p <> KO -> msg_ok p v.
+Proof. exact msg_ok_non_option. Qed.
+Theorem C12_defaults_stable_computed : forall a, defaults_stable_b a = true -> defaults_stable a.
+Proof. exact defaults_stable_b_sound. Qed.
+Theorem C12_msg_ok_computed : forall p v, msg_ok_b p v = true -> msg_ok p v.
+Proof. exact msg_ok_b_sound. Qed.
+Theorem C12_reachable_nonvacuous :
+  wf_app fx_app /\ defaults_stable fx_app /\ reachable fx_app fx_state /\ full_conditions fx_app fx_state.
+Proof. exact reachable_nonvacuous. Qed.
